@@ -15,6 +15,7 @@ from __future__ import annotations
 import itertools
 import json
 import random
+import time
 from concurrent.futures import ThreadPoolExecutor
 from pathlib import Path
 from typing import Any
@@ -65,10 +66,13 @@ def _sig(meta: dict[str, Any], trace: dict[str, Any], verdict: tuple[str, int, s
 def _start_mc(tier: str, seed: int, pool: ThreadPoolExecutor) -> dict[str, Any]:
     """Start the model-checking runs, the negative controls and the two simulations (separate JVMs)."""
     futs: dict[str, Any] = {}
-    mains = ["quick", "ops3", "live"] + (["full", "ops3full"] if tier == "thorough" else [])
+    # asiscov: the as-found machine (all deviations on) without the contract invariants: type
+    # correctness, termination and coverage of the actions that exist only under Dev_S25
+    mains = ["quick", "ops3", "live", "asiscov"] + (["full", "ops3full"] if tier == "thorough" else [])
     for c in mains + list(NEG_CONTROLS):
-        futs[c] = pool.submit(tlc.run_tlc, "MC_Penlog", f"MC_Penlog_{c}.cfg", timeout=1800, workers=4,
-                              coverage=(c in ("ops3", "devS25")))
+        futs[c] = pool.submit(tlc.run_tlc, "MC_Penlog", f"MC_Penlog_{c}.cfg", timeout=1800,
+                              workers=1 if c in NEG_CONTROLS else 4,
+                              coverage=(c in ("ops3", "asiscov")))
     nsim = 400 if tier == "quick" else 4000
     futs["sim"] = pool.submit(tlc.simulate_behaviours, "MC_Penlog", "MC_Penlog_sim.cfg", num=nsim, depth=80,
                               seed=seed + 17, timeout=900)
@@ -151,6 +155,14 @@ def run(tier: str, seed: int) -> Report:
 
 def _drive(rep: Report, tier: str, seed: int, P: Any, d: Path, futs: dict[str, Any]) -> Report:
     quick = tier == "quick"
+    phase: dict[str, float] = {}
+    t_phase = time.time()
+
+    def mark(name: str) -> None:
+        nonlocal t_phase
+        phase[name] = round(time.time() - t_phase, 1)
+        t_phase = time.time()
+
     batch = P.Batch()
     rnd = random.Random(seed)
     lmax = 3 if quick else 4
@@ -158,10 +170,11 @@ def _drive(rep: Report, tier: str, seed: int, P: Any, d: Path, futs: dict[str, A
     ops_all = P.all_ops(max_n, THRESHOLDS)
     firsts = _first_ops(P)
     probes = _probe_ops(P)
-    other_containers = [("gz", "all"), ("plain", "all"), ("stdin-file", "all"), ("stdin-pipe", "all"),
-                        ("plain", "none"), ("zst", "mixed"), ("gz", "none")]
+    other_containers = [("gz", "all"), ("stdin-file", "all"), ("stdin-pipe", "all"), ("plain", "none"),
+                        ("zst", "mixed")]
     if not quick:
-        other_containers += [("zst", "none"), ("plain", "mixed"), ("stdin-pipe", "none")]
+        other_containers += [("plain", "all"), ("gz", "none"), ("zst", "none"), ("plain", "mixed"),
+                             ("stdin-pipe", "none")]
     written: dict[tuple[str, ...], Any] = {}
 
     def get_enum(levels: tuple[str, ...]) -> Any:
@@ -201,7 +214,7 @@ def _drive(rep: Report, tier: str, seed: int, P: Any, d: Path, futs: dict[str, A
             for f in firsts:
                 batch.add(w, P.run_reader_session(c, [f, *probes]), meta("reader", c, "enum-probe"))
         # hr: every mode x threshold (and omitted) x count (and omitted)
-        for p in (*THRESHOLDS, -1):
+        for p in ((2, 5, 8, -1) if quick else (*THRESHOLDS, -1)):
             hr_ops = [P.op("fwd", p), P.op("rev", p)]
             hr_ops += [P.op(m, p, n) for m in ("head", "tail") for n in ((0, 1, 3, -1) if quick else (0, 1, 2, 3, 4, 5, -1))]
             for o in hr_ops:
@@ -216,6 +229,7 @@ def _drive(rep: Report, tier: str, seed: int, P: Any, d: Path, futs: dict[str, A
                                "ops_reduced": len(ops_small), "first_ops": len(firsts),
                                "containers": 1 + len(other_containers)}
 
+    mark("drive_enumerated")
     # ---- 2b. seeded random logs with hostile content
     sizes = [0, 1, 2, 3, 4, 6, 9, 17, 40] if quick else [0, 1, 1, 2, 2, 3, 3, 4, 5, 6, 7, 9, 12, 17, 25, 40, 80, 150]
     specs = [P.spec_random(seed, i, n) for i, n in enumerate(sizes * (1 if quick else 4))]
@@ -253,8 +267,10 @@ def _drive(rep: Report, tier: str, seed: int, P: Any, d: Path, futs: dict[str, A
             for o in (hr_ops if not big else hr_ops[:3]):
                 batch.add(w, P.run_hr_session(c, o, argv=P.hr_argv(o, rnd), content=not big), mh)
 
+    mark("drive_random")
     # ---- 3. spec -> code: behaviours of the design layer (all deviations off) replayed on real logs
     _collect_mc(rep, futs)
+    mark("wait_for_model_checking")
     _sres, behs = futs["sim"].result()
     _ares, abehs = futs["asis_sim"].result()
     sim_tids: list[tuple[int, list[dict[str, Any]]]] = []
@@ -286,8 +302,10 @@ def _drive(rep: Report, tier: str, seed: int, P: Any, d: Path, futs: dict[str, A
                                         "note": "design layer with Dev_S24/S25/S26 TRUE compared with the tree under "
                                                 "test (informational: identical on the unrepaired tree)"}
 
+    mark("spec_to_code_replay")
     # ---- 4. code -> spec: TLC validates every session
-    verdicts, results = P.validate(batch, chunk=15000, jobs=4 if quick else 6)
+    verdicts, results = P.validate(batch, chunk=7000 if quick else 15000, jobs=6)
+    mark("tlc_trace_validation")
     for res in results:
         rep.add_tlc(res, "Trace_Penlog batch")
     rep.traces = len(batch.traces)
@@ -355,6 +373,8 @@ def _drive(rep: Report, tier: str, seed: int, P: Any, d: Path, futs: dict[str, A
 
     # ---- 5. binding self-tests
     _selftest(rep, P, d, batch, verdicts, get_enum)
+    mark("selftest")
+    rep.extra["phase_wall_s"] = phase
     return rep
 
 
